@@ -138,7 +138,7 @@ func c20Wiring(e *Env) {
 			e.R.Fail(rule, "net/responsewriter.ResponseWriter.SetResponse:consults-predicate", e.fpos(f), fmt.Sprintf("expected exactly one call to IsNoResponseCode, found %d", len(calls)))
 		} else {
 			c := calls[0].(*ssa.Call)
-			okArgs := core.Unwrap(core.Arg(c, 0)) == ssa.Value(f.Params[1])
+			okArgs := core.Resolve(core.Arg(c, 0)) == ssa.Value(f.Params[1])
 			vArg := core.Arg(c, 1)
 			okVal := false
 			if ld, ok := vArg.(*ssa.UnOp); ok {
@@ -194,7 +194,7 @@ func c20Wiring(e *Env) {
 			retOK := false
 			for _, i := range core.IfsOf(f) {
 				ev, nilBranch, ok := core.ErrNilEdge(i)
-				if !ok || ev != ssa.Value(c) {
+				if !ok || core.Resolve(ev) != ssa.Value(c) {
 					continue
 				}
 				k := 0
@@ -202,7 +202,7 @@ func c20Wiring(e *Env) {
 					k = 1
 				}
 				blk := i.Block().Succs[k]
-				if ret, ok := blk.Instrs[len(blk.Instrs)-1].(*ssa.Return); ok && len(ret.Results) == 1 && core.RetVal(ret, 0) == ssa.Value(c) {
+				if ret, ok := blk.Instrs[len(blk.Instrs)-1].(*ssa.Return); ok && len(ret.Results) == 1 && core.Resolve(core.RetVal(ret, 0)) == ssa.Value(c) {
 					retOK = true
 				}
 			}
